@@ -117,6 +117,8 @@ func (s C01) Events(env world.Env, mm mc.Model) []string {
 	}
 	// a fourth account, not a registered provider: only it can meet the file when it is full (replication 3)
 	evs = append(evs, "Proof:P4:f1:valid", "Proof:P4:f1:otherAtChallenged", "Proof:P4:f1:broken")
+	// the same account signing with the capital spelling of its address (a separate prover identity on this chain)
+	evs = append(evs, "Proof:P4^:f1:valid", "Proof:P4^:f1:otherAtChallenged", "Proof:P4^:f1:broken")
 	evs = append(evs, "Proof:P3:f0:valid", "AttReq:P1", "AttReq:P3")
 	for _, x := range c01Provers {
 		for _, v := range []string{"P1", "P3"} {
@@ -162,6 +164,14 @@ func c01Payload(kind string, c int64) (item, hashList []byte, toProve int64, val
 		return item, truncatedProof(hashList), c, false
 	}
 	panic(kind)
+}
+
+// c01Spelling: the address string an account signs with; "X^" is account X spelling its address in capitals.
+func c01Spelling(w *world.World, name string) string {
+	if strings.HasSuffix(name, "^") {
+		return strings.ToUpper(w.A(strings.TrimSuffix(name, "^")).Bech)
+	}
+	return w.A(name).Bech
 }
 
 type c01Snap struct {
@@ -218,8 +228,10 @@ func (C01) Apply(env world.Env, mm mc.Model, ev string) mc.Step {
 		// rewards stay with each file's own provers: for two paid accounts x, y the ratio of their payouts is at most
 		// (total size of the files x has ever validly proven) / (size of the smallest file y has ever validly proven)
 		sizes := func(x string) (max, min int64) {
-			if m.Proven[x] {
-				max, min = int64(len(c01F1.data)), int64(len(c01F1.data))
+			for _, sp := range []string{x, x + "^"} { // each spelling of the address is a prover seat of its own
+				if m.Proven[sp] {
+					max, min = max+int64(len(c01F1.data)), int64(len(c01F1.data))
+				}
 			}
 			if m.Proven2 == x {
 				max += int64(len(c01F2.data))
@@ -247,7 +259,7 @@ func (C01) Apply(env world.Env, mm mc.Model, ev string) mc.Step {
 			a := w.A(x).Bech
 			if after[a].AmountOf("ujkl").GT(before[a].AmountOf("ujkl")) {
 				st.Exercised = append(st.Exercised, "reward-paid")
-				if !m.Proven[x] && m.Proven2 != x {
+				if !m.Proven[x] && !m.Proven[x+"^"] && m.Proven2 != x {
 					vs = append(vs, viol("no-reward-without-valid-proof", "paid-never-proven",
 						"%s was paid %s ujkl at the reward block of height %d but never had a valid proof accepted", x,
 						after[a].AmountOf("ujkl").Sub(before[a].AmountOf("ujkl")), env.Ctx().BlockHeight()))
@@ -261,13 +273,14 @@ func (C01) Apply(env world.Env, mm mc.Model, ev string) mc.Step {
 			st.Outcome = "ok"
 		}
 	case "Proof":
-		x := w.A(p[1])
+		x := w.A(strings.TrimSuffix(p[1], "^"))
+		xs := c01Spelling(w, p[1]) // the sender string of the message: the account's address, in capitals for "P4^"
 		before := c01Snapshot(w, env.Ctx(), m.Start)
-		listed := before.found && proverListed(before.file, x.Bech)
+		listed := before.found && proverListed(before.file, xs)
 		full := before.found && int64(len(before.file.Proofs)) >= before.file.MaxProofs && !listed
 		c := int64(0)
 		if listed {
-			c = before.proofs[x.Bech].ChunkToProve
+			c = before.proofs[xs].ChunkToProve
 		}
 		merkle := c01F1.merkle
 		item, hl, toProve, valid := c01Payload(p[3], c)
@@ -280,7 +293,8 @@ func (C01) Apply(env world.Env, mm mc.Model, ev string) mc.Step {
 			toProve, valid = 0, false
 		}
 		validHere := valid && before.found && !full
-		res := env.Deliver(storagetypes.NewMsgPostProof(x.Bech, merkle, u, m.Start, item, hl, toProve))
+		_ = x
+		res := env.Deliver(storagetypes.NewMsgPostProof(xs, merkle, u, m.Start, item, hl, toProve))
 		ok, emsg := postProofOK(w, res)
 		after := c01Snapshot(w, env.Ctx(), m.Start)
 		kind := p[3]
@@ -302,15 +316,15 @@ func (C01) Apply(env world.Env, mm mc.Model, ev string) mc.Step {
 			}
 			if !storeEqual(before.dump, after.dump) {
 				why := "store-changed"
-				if !listed && after.found && proverListed(after.file, x.Bech) {
+				if !listed && after.found && proverListed(after.file, xs) {
 					why = "sender-registered-before-verification"
 				}
 				vs = append(vs, viol("invalid-proof-changes-nothing", why, "%s (challenge %d, response %q) changed the storage store: %v", ev, c, emsg, storeDiffKeys(before.dump, after.dump)))
 			}
 		}
 		// (b) prover list gains an account only by its own valid proof; (c) LastProven moves only then
-		for _, y := range append(append([]string{}, c01Provers...), "P4") {
-			yb := w.A(y).Bech
+		for _, y := range append(append([]string{}, c01Provers...), "P4", "P4^") {
+			yb := c01Spelling(w, y)
 			was := before.found && proverListed(before.file, yb)
 			is := after.found && proverListed(after.file, yb)
 			if is && !was && !(y == p[1] && validHere && ok) {
